@@ -104,9 +104,15 @@ impl<'a, T, L: MutLayout + Send + Sync> IntoParallelIterator for InnerIterMut<'a
 
 impl<'a, T, L: MutLayout + RemoveDim> SplitIterator for AxisIter<'a, T, L> {
     fn split_at(self, index: usize) -> (Self, Self) {
-        let (left_view, right_view) = self.view.split_at(self.axis, index);
-        let left = AxisIter::new(&left_view, self.axis);
-        let right = AxisIter::new(&right_view, self.axis);
+        // Split relative to the current front position, and carry over the
+        // progress made from either end.
+        let mid = self.index + index;
+        assert!(mid <= self.end);
+        let (left_view, right_view) = self.view.split_at(self.axis, mid);
+        let mut left = AxisIter::new(&left_view, self.axis);
+        left.index = self.index;
+        let mut right = AxisIter::new(&right_view, self.axis);
+        right.end = self.end - mid;
         (left, right)
     }
 }
@@ -120,9 +126,15 @@ where
 
 impl<'a, T, L: MutLayout + RemoveDim> SplitIterator for AxisIterMut<'a, T, L> {
     fn split_at(self, index: usize) -> (Self, Self) {
-        let (left_view, right_view) = self.view.split_at_mut(self.axis, index);
-        let left = AxisIterMut::new(left_view, self.axis);
-        let right = AxisIterMut::new(right_view, self.axis);
+        // Split relative to the current front position, and carry over the
+        // progress made from either end.
+        let mid = self.index + index;
+        assert!(mid <= self.end);
+        let (left_view, right_view) = self.view.split_at_mut(self.axis, mid);
+        let mut left = AxisIterMut::new(left_view, self.axis);
+        left.index = self.index;
+        let mut right = AxisIterMut::new(right_view, self.axis);
+        right.end = self.end - mid;
         (left, right)
     }
 }
